@@ -328,6 +328,36 @@ fn rect_case(out: &mut Out, pts: &[IPt], s: i32, gen: &str) {
                     }
                 }
             }
+            // "minimum area": compare with the exact minimum over the hull's edge-aligned
+            // bounding rects and the axis-aligned one (what the exhaustive search ranges over)
+            if fail.is_none() && s == 0 && !pts.is_empty() {
+                let hull: Vec<IPt> = convex_hull(&fpts).iter().filter_map(|&p| from_pf(p, 0)).collect();
+                let (x0, x1) = (pts.iter().map(|p| p.0).min().unwrap(), pts.iter().map(|p| p.0).max().unwrap());
+                let (y0, y1) = (pts.iter().map(|p| p.1).min().unwrap(), pts.iter().map(|p| p.1).max().unwrap());
+                let mut best = ((x1 - x0) * (y1 - y0)) as f64;
+                if hull.len() >= 2 {
+                    for i in 0..hull.len() {
+                        let (a, b) = (hull[i], hull[(i + 1) % hull.len()]);
+                        let (ex, ey) = ((b.0 - a.0) as f64, (b.1 - a.1) as f64);
+                        let l2 = ex * ex + ey * ey;
+                        let (mut lo, mut hi, mut mp) = (f64::MAX, f64::MIN, f64::MIN);
+                        for q in &hull {
+                            let (dx, dy) = ((q.0 - a.0) as f64, (q.1 - a.1) as f64);
+                            let par = ex * dx + ey * dy;
+                            let perp = (ex * dy - ey * dx).abs();
+                            lo = lo.min(par);
+                            hi = hi.max(par);
+                            mp = mp.max(perp);
+                        }
+                        best = best.min((hi - lo) * mp / l2);
+                    }
+                }
+                let area = w * h;
+                if (area - best).abs() > 1e-3 * best.max(1e-2 * span * span).max(1.0) {
+                    fail = Some(format!("rect area {area} differs from the exact minimum {best} over the edge-aligned rects"));
+                }
+                out.bucket("rect_min_area_checked");
+            }
             ("some".to_string(), fail)
         }
         Err(m) => (format!("panic {m}"), Some(format!("min_area_rect panicked: {m}"))),
@@ -440,7 +470,8 @@ fn dp_case(out: &mut Out, pts: &[IPt], closed: bool, eps: f32, s: i32, gen: &str
     let req = if s == 0 {
         format!("dp {} {} {} {}", closed as u8, eps_w, fmt_pts(pts), tab_w)
     } else {
-        format!("# dp-scaled 2^{s} closed={} eps={:e} {}", closed as u8, eps, fmt_pts(pts))
+        // the model runs on the shipped distance table, so scaled cases are compared too
+        format!("dp {} {} {} {} #scale=2^{s};eps={:e}", closed as u8, eps_w, fmt_pts(pts), tab_w, eps)
     };
     let res = hcommon::catch(|| {
         if closed {
@@ -476,6 +507,51 @@ fn dp_case(out: &mut Out, pts: &[IPt], closed: bool, eps: f32, s: i32, gen: &str
     out.bucket(if !eps_ok { "dp_eps_invalid" } else if eps == 0.0 { "dp_eps_zero" } else { "dp_eps_pos" });
     out.bucket(&format!("dp_n_{}", bucket_n(pts.len())));
     out.case(&req, &ans, fail.as_deref(), pts.len() >= 4 && eps_ok);
+}
+
+/// Points with NaN / infinite / signed-zero / extreme coordinates: only "no panic" is required
+/// (`sort_by` panics on an inconsistent comparator), plus the documented `epsilon >= 0`
+/// assertion for the simplifications.
+fn special_case(out: &mut Out, rng: &mut Rng) {
+    let specials = [f32::NAN, f32::INFINITY, f32::NEG_INFINITY, -0.0, 0.0, 3.0e38, -3.0e38, 1e-40, -1e-40, 1.0];
+    let n = 1 + rng.usize_below(24);
+    let coord = |rng: &mut Rng| if rng.chance(1, 3) { *rng.pick(&specials) } else { rng.range_i64(-3, 3) as f32 };
+    let pts: Vec<PointF> = (0..n).map(|_| { let y = coord(rng); let x = coord(rng); PointF::from_yx(y, x) }).collect();
+    let txt = hcommon::join(pts.iter().map(|p| format!("{:e},{:e}", p.x, p.y)), ";");
+    let which = rng.below(3);
+    let req = format!("# special {} {txt}", ["hull", "rect", "simplify"][which as usize]);
+    let res = hcommon::catch(|| match which {
+        0 => convex_hull(&pts).len(),
+        1 => min_area_rect(&pts).is_some() as usize,
+        _ => simplify_polygon(&pts, 1.0).len() + simplify_polyline(&pts, 0.5).len(),
+    });
+    let (ans, fail) = match res {
+        Ok(k) => (format!("ok {k}"), None),
+        Err(m) => ("panic".to_string(), Some(format!("panicked on non-finite / extreme coordinates: {m}"))),
+    };
+    out.bucket(["special_hull", "special_rect", "special_simplify"][which as usize]);
+    out.case(&req, &ans, fail.as_deref(), n >= 3);
+}
+
+/// Hull of points whose coordinates have very different magnitudes (per-coordinate scale 2^0,
+/// 2^25 or 2^50): the f64 differences the code forms are then not exact. Exact i128 oracle.
+fn mixed_scale_case(out: &mut Out, rng: &mut Rng) {
+    let n = 3 + rng.usize_below(10);
+    let sc = |rng: &mut Rng| -> i64 { rng.range_i64(-1000, 1000) << *rng.pick(&[0u32, 0, 25, 50]) };
+    let pts: Vec<IPt> = (0..n).map(|_| (sc(rng), sc(rng))).collect();
+    // every value k * 2^s with |k| <= 1000 is exactly representable in f32
+    let fpts: Vec<PointF> = pts.iter().map(|p| PointF::from_yx(p.1 as f32, p.0 as f32)).collect();
+    let req = format!("# hull-mixed {}", fmt_pts(&pts));
+    let res = hcommon::catch(|| convex_hull(&fpts));
+    let (ans, fail) = match res {
+        Ok(h) => {
+            let hi: Vec<IPt> = h.iter().map(|p| (p.x as f64 as i64, p.y as f64 as i64)).collect();
+            (fmt_pts(&hi), hull_oracle(&pts, &hi))
+        }
+        Err(m) => ("panic".to_string(), Some(format!("convex_hull panicked: {m}"))),
+    };
+    out.bucket("hull_mixed_scale");
+    out.case(&req, &ans, fail.as_deref(), true);
 }
 
 fn main() {
@@ -557,6 +633,12 @@ fn run(args: &Args) {
                 dp_case(&mut out, &pts, closed, eps, s, gen);
             }
         }
+    }
+    for _ in 0..3_000 * mult {
+        special_case(&mut out, &mut rng);
+    }
+    for _ in 0..2_000 * mult {
+        mixed_scale_case(&mut out, &mut rng);
     }
     out.note("coordinates are integers (|c| <= 1000 in the compared range, so f32 cross products are exact); scaled cases multiply them by 2^s, s in {-130..110}");
     out.finish("model answer (Douglas-Peucker on the code's distance table; hull on the code's sort keys) must equal the implementation's output; exact oracle: hull subset/dup-free/strictly convex/contains all; rect contains all; simplification keeps first point, subsequence, removed points within epsilon");
